@@ -9,7 +9,7 @@ the data, the pad byte of an odd byte total) or in the container whose reader tr
 Histories (deterministic, every writable format whose frames are whole bytes; 1 / 2 / 3 channels in rotation, at least one
 multi-channel job per format; odd frame counts so that 1- and 3-byte samples end on an odd byte total):
     open w; [sf_set_string before the audio]; sf_write_raw x 3 (1 frame, a middle piece, the rest) with the write-position probe and
-    `info` (SF_INFO.frames of the open handle) in between; [sf_set_string AFTER the audio -> LIST / text chunk / CAF info behind it];
+    `info` (SF_INFO.frames of the open handle) in between; one sf_write_raw of a frame + one sample (multi-channel: refused, nothing moves); [sf_set_string AFTER the audio -> LIST / text chunk / CAF info behind it];
     [SFC_UPDATE_HEADER_NOW; info]; close; fresh open r: info, sf_read_raw of everything + 3 frames (exactly the bytes written, then the
     end), one typed read at the end (0 items).
 Verdict: the Lean predicate Sf.Abs.check (`sfmodel abs`): rawWriteOk (count, position, frame count, the byte stream), seekOk, infoOk,
@@ -24,11 +24,16 @@ def history(rng, f, ch, n, tail, update):
     if "b" in tail:
         H.op("setstr %s 1 %s" % (H.h, b"set before the audio".hex()))
     parts = [1, max(1, n // 3), n - 1 - max(1, n // 3)]
+    nb = H.bw // ch
     for j, k in enumerate(p for p in parts if p > 0):
         H.write(k)
         H.op("seek %s 0 33" % H.h)
         if j != 1:
             H.op("info %s" % H.h)
+        if j == 0 and ch > 1:
+            # whole samples but not a whole frame: refused (SFE_BAD_WRITE_ALIGN), nothing moves
+            H.op("wraw %s %d %s" % (H.h, H.bw + nb, T._rawbytes(rng, f, H.bw + nb)))
+            H.op("seek %s 0 33" % H.h)
     if "s" in tail:
         H.op("setstr %s 1 %s" % (H.h, b"set after the audio".hex()))
     if update:
